@@ -188,3 +188,26 @@ Proof.
     + destruct ((w_ctr x =? w_ctr m) && (w_dl x =? w_dl x)%Z && (w_dl x =? w_dl m)%Z); [exact Hin|right; apply IH; exact Hin].
   - apply filter_In. split; [exact Hin|]. destruct (N.eqb_spec (w_ctr e) c); [contradiction|reflexivity].
 Qed.
+Lemma wh_cancel_subset w c e : In e (wh_heap (wh_cancel w c)) -> In e (wh_heap w).
+Proof.
+  unfold wh_cancel. destruct (wh_min (wh_heap w)) as [m|]; [|tauto].
+  destruct (w_ctr m =? c); cbn; [apply wh_remove_first_in|intros H; apply filter_In in H; tauto].
+Qed.
+(* the wait of a dispatch is bounded by the earliest deadline in the wheel: after a cancel that is the earliest deadline among
+   the OTHER armings - the cancelled one no longer shortens any wait *)
+Lemma wh_next_after_cancel w c d : NoDup (map w_ctr (wh_heap w)) -> wh_next_deadline (wh_cancel w c) = Some d ->
+  exists e, In e (wh_heap w) /\ w_ctr e <> c /\ w_dl e = d /\ forall e', In e' (wh_heap w) -> w_ctr e' <> c -> (d <= w_dl e')%Z.
+Proof.
+  intros Hnd H. unfold wh_next_deadline in H. destruct (wh_min (wh_heap (wh_cancel w c))) as [m|] eqn:Em; [|discriminate].
+  injection H as <-. exists m. pose proof (wh_min_in _ _ Em) as Hin.
+  split; [apply (wh_cancel_subset w c); exact Hin|]. split.
+  - intros Hc. apply (wh_cancel_removes w c Hnd). apply in_map_iff. exists m. split; [exact Hc|exact Hin].
+  - split; [reflexivity|]. intros e' He' Hne. apply (wh_min_le _ _ Em). apply wh_cancel_keeps; assumption.
+Qed.
+Lemma wh_next_none_after_cancel w c : NoDup (map w_ctr (wh_heap w)) -> wh_next_deadline (wh_cancel w c) = None ->
+  forall e, In e (wh_heap w) -> w_ctr e = c.
+Proof.
+  intros Hnd H e He. unfold wh_next_deadline in H. destruct (wh_min (wh_heap (wh_cancel w c))) as [m|] eqn:Em; [discriminate|].
+  apply wh_min_none in Em. destruct (N.eq_dec (w_ctr e) c) as [E|E]; [exact E|].
+  pose proof (wh_cancel_keeps w c e He E) as K. rewrite Em in K. contradiction.
+Qed.
